@@ -63,6 +63,8 @@ pub enum Ev {
         kind: String,
         seq: u64,
         t: u64,
+        #[serde(default)]
+        wall: u64,
     },
     FinishEnd {
         id: String,
@@ -447,6 +449,7 @@ fn run_program(mut rq: Request, sh: &Arc<Shared>, rx: usize) {
         kind: kind.clone(),
         seq: simrt::seq(),
         t: simrt::now_ns(),
+        wall: simrt::time::wall_secs(),
     });
     let mut ok = true;
     let mut err = None;
@@ -778,6 +781,17 @@ fn client_thread(addr: simrt::net::Addr, sh: Arc<Shared>, ci: usize, sc: ConnScr
                 }
             },
             ClientStep::JumpWall(d) => simrt::jump_wall_clock(*d),
+            ClientStep::AwaitLen(n) => loop {
+                let have = c.received_len();
+                if have >= *n {
+                    cev("await_len:ok");
+                    break;
+                }
+                if !c.wait_more(have) {
+                    cev("await_len:closed");
+                    break;
+                }
+            },
         }
     }
     sh.obs.lock().unwrap().conns[ci].script_done = true;
